@@ -3,18 +3,20 @@
 and archives it under /verif/seeded/<id>/<mut>/.   usage: tools/confirm_seeded.py [Cxx ...]"""
 import json, os, shutil, subprocess, sys, concurrent.futures as cf
 V = os.path.dirname(os.path.dirname(os.path.abspath(__file__)))
-LIB_DEMOS = {("C12", "mutA"), ("C12", "mutB"), ("C19", "mutB")}        # demo takes the checkout path, not the binary
+LIB_DEMOS = {("C12", "mutA"), ("C12", "mutB"), ("C19", "mutB")} if os.environ.get("SEEDED_ROUND", "") == "" else {("C12", "mutA"), ("C11", "mutB")}        # demo takes the checkout path, not the binary
 
 def sh(cmd, cwd=None, timeout=1800, env=None):
     p = subprocess.run(cmd, cwd=cwd, shell=isinstance(cmd, str), stdout=subprocess.PIPE, stderr=subprocess.STDOUT, text=True, timeout=timeout, env=env)
     return p.returncode, p.stdout
 
+ROUND = os.environ.get("SEEDED_ROUND", "")          # "" = first round (/tmp/xcp-wt-*), "r2" = second round (/tmp/xcp-r2-*)
+
 def confirm(pid, mut):
-    src = "/tmp/xcp-wt-%s/_out" % pid
+    src = ("/tmp/xcp-r2-%s/_out" if ROUND == "r2" else "/tmp/xcp-wt-%s/_out") % pid
     diff = os.path.join(src, mut + ".diff"); demo = os.path.join(src, mut + "_demo.sh")
     if not (os.path.exists(diff) and os.path.exists(demo)):
         return pid, mut, {"status": "absent"}
-    wt = "/tmp/xcp-confirm-%s-%s" % (pid, mut)
+    wt = "/tmp/xcp-confirm-%s%s-%s" % (ROUND, pid, mut)
     sh(["git", "-C", "/repo", "worktree", "remove", "--force", wt]); shutil.rmtree(wt, ignore_errors=True)
     rc, out = sh(["git", "-C", "/repo", "worktree", "add", "-q", "--detach", wt, "HEAD"])
     meta = {"property": pid, "mutant": mut, "base_commit": sh(["git", "-C", "/repo", "rev-parse", "--short", "HEAD"])[1].strip()}
@@ -37,7 +39,7 @@ def confirm(pid, mut):
         ok = meta["builds"] and meta["tests_pass_with_change"] and rc1 != 0 and rc0 == 0
         meta["status"] = "confirmed" if ok else "rejected"
         if ok:
-            dst = os.path.join(V, "seeded", pid, mut)
+            dst = os.path.join(V, "seeded", pid, (ROUND + "-" if ROUND else "") + mut)
             os.makedirs(dst, exist_ok=True)
             shutil.copy(diff, os.path.join(dst, "patch.diff")); shutil.copy(demo, os.path.join(dst, "demo.sh"))
             for extra in os.listdir(src):
@@ -45,7 +47,7 @@ def confirm(pid, mut):
                     shutil.copy(os.path.join(src, extra), os.path.join(dst, extra))
             notes = os.path.join(src, "notes.md")
             if os.path.exists(notes):
-                shutil.copy(notes, os.path.join(V, "seeded", pid, "notes.md"))
+                shutil.copy(notes, os.path.join(V, "seeded", pid, ("notes-%s.md" % ROUND) if ROUND else "notes.md"))
             meta["ran"] = ["git worktree add (HEAD) + git apply patch.diff", "cargo build --offline", "tools/baseline.sh (XCP_REPO=worktree): the 126 baseline tests pass",
                            "bash demo.sh <changed> -> exit %d" % rc1, "bash demo.sh <unchanged> -> exit 0"]
             json.dump(meta, open(os.path.join(dst, "meta.json"), "w"), indent=1)
